@@ -2,6 +2,7 @@
 from dst import zoo
 
 MF = zoo.MODEL_FREE
+MF_SIM = [k for k in MF if k != "pbt"]
 
 
 def _p(**kw):
@@ -10,8 +11,9 @@ def _p(**kw):
 
 PROFILES = {
     # property -> list of (weight, profile dict)
-    "C01": [(6, _p(world="mem", kinds=MF)), ],
-    "C02": [(6, _p(world="mem", kinds=MF, p_latency=0.8, p_no_ckpt_script=0.4)), ],
+    "C01": [(6, _p(world="mem", kinds=MF)), (3, _p(world="sim", kinds=MF_SIM, fault_kinds=["crash"])), ],
+    "C02": [(6, _p(world="mem", kinds=MF, p_latency=0.8, p_no_ckpt_script=0.4)),
+            (3, _p(world="sim", kinds=MF_SIM, p_latency=0.8, p_no_ckpt_script=0.4, p_no_maxres=0.6, fault_kinds=["crash"])), ],
     "C03": [(6, _p(world="mem", kinds=["hb_stopping", "hb_stopping", "hb_rush_stopping"], p_fault_free=0.6, p_ties=0.2,
                    fault_kinds=["crash"], max_trials=25)), ],
     "C04": [(6, _p(world="mem", kinds=["hb_promotion", "hb_promotion", "hb_pasha", "hb_cost_promotion", "hb_rush_promotion"],
@@ -25,10 +27,13 @@ PROFILES = {
     "C20": [(6, _p(world="mem", kinds=["hb_promotion", "hb_pasha", "hb_cost_promotion", "hb_rush_promotion", "sync_hb", "sync_hb_custom",
                                        "dehb", "pbt", "pbt"], p_delete_ckpt=0.8, p_fault_free=0.6, fault_kinds=["crash"],
                    p_no_ckpt_script=0.1, p_nodelay_false=0.05)), ],
+    "C10": [(6, _p(world="sim", kinds=MF_SIM, p_fault_free=0.7, fault_kinds=["crash"], p_latency=0.6)), ],
     "C12": [(6, _p(world="mem", kinds=MF, p_noreport=0.08, p_callback_raise=0.2, p_wait=0.4,
                    stop_fields=["max_num_trials_started", "max_num_trials_finished", "max_num_trials_completed",
-                                "max_num_evaluations", "max_wallclock_time", "max_metric_value", "min_metric_value", "max_cost"])), ],
-    "C13": [(6, _p(world="mem", kinds=MF, p_fault_free=0.0, p_latency=0.5)), ],
+                                "max_num_evaluations", "max_wallclock_time", "max_metric_value", "min_metric_value", "max_cost"])),
+            (2, _p(world="sim", kinds=MF_SIM, fault_kinds=["crash"], p_wait=0.4, p_callback_raise=0.1)), ],
+    "C13": [(6, _p(world="mem", kinds=MF, p_fault_free=0.0, p_latency=0.5)),
+            (2, _p(world="sim", kinds=MF_SIM, p_fault_free=0.0, fault_kinds=["crash"])), ],
     "C17": [(6, _p(world="mem", kinds=MF, p_extra=0.7, p_callback_raise=0.1)), ],
 }
 
